@@ -32,7 +32,21 @@ CFG = {
              "process_pixels helpers return, for EVERY block / encoded value, Some of exactly what the wrapping models "
              "of C03/C03x/C04 compute: no panic site of a body is reachable and checked = release arithmetic "
              "(bc1to5_bodies_trapfree, bc7_body_trapfree, bc6_body_trapfree, uncompressed_bodies_trapfree, "
-             "subsampled_biplanar_bodies_trapfree, channel_conversion_trapfree, pixel_loop_wrappers_trapfree). Tied to the code on every run by a hostile-input "
+             "subsampled_biplanar_bodies_trapfree, channel_conversion_trapfree, pixel_loop_wrappers_trapfree). And so are the "
+             "generic decode LOOPS of read_write.rs (TrapLoops*.lean): UntypedLineBuffer (new / next_line), "
+             "ChannelConversionBuffer::{process_pixels, process_blocks, process_bi_planar}, for_each_pixel(_rect)_untyped, "
+             "for_each_block(_rect)_untyped with general_process_blocks / process_4x4 (incl. handle_width_offset and the aligned "
+             "fast path taken or not) / 2x1 / 8x1 helpers, for_each_bi_planar(_rect) with process_bi_planar_helper, "
+             "read_exact_image / for_each_slice and ImageViewMut's get_row / get_row_range / rows_mut / is_contiguous: every "
+             "a..b slice, plain usize / u32 / u8 arithmetic, division, step_by, expect / unwrap / (debug_)assert! and every "
+             "index into a block's pixel array is a possible panic value of the mirror; for EVERY view ImageViewMut can hold "
+             "(C20's invariant), every surface < 2^32 x 2^32 that passed check_likely_overflow, every rect inside it, every "
+             "native / target colour pair and buffer alignment the mirror returns Some, its reader / allocator trace IS the "
+             "trace of C06/C07's model and every write lies inside a row of the view (line_buffer_trapfree, "
+             "pixel_loops_trapfree, block_loops_trapfree, biplanar_loops_trapfree, channel_conversion_buffer_trapfree, "
+             "read_exact_image_trapfree, decode_loops_trapfree); the proof attempt found F17 (u32 overflow of chunk_start + "
+             "preferred_chunk_size in process_blocks for widths within 3072 pixels of 2^32; repaired), recorded as "
+             "f17_unrepaired_traps / f17_repaired_returns and tied by one giant decode case. Tied to the code on every run by a hostile-input "
              "differential run (structured and mutated headers, truncations at every offset, option matrix, fault "
              "injecting Read+Seek, all 73 formats x 12 colours) in release and overflow-checking builds under "
              "catch_unwind and a watchdog.",
@@ -43,12 +57,13 @@ CFG = {
             "are tied to the code by the C03/C03x/C04 checks, which run the real decoders in the overflow-checking "
             "profile under catch_unwind); the correspondence check and its generators. PROVED panic-free for all inputs: "
             "parse, layout, iterator, stream, output addressing AND the per-block / per-pixel bodies of BC1-5, BC7, BC6H, "
-            "the 45 uncompressed / sub-sampled / bi-planar formats, r1_bits, convert_channels, process_pixels_helper(_unroll). "
-            "STILL only exercised: the external astc-decode crate (ASTC bodies), the slicing inside the generic block / "
-            "plane loops of read_write.rs beyond the address theorems of C05 (process_4x4/2x1/8x1_blocks_helper, "
-            "process_bi_planar_helper, ChannelConversionBuffer chunking), f32 arithmetic being panic-free (IEEE, "
-            "saturating casts: an assumption about Rust, not a theorem), std I/O and allocation. Termination of the "
-            "implementation's loops is only observed (watchdog); the model functions are all structurally recursive.",
+            "the 45 uncompressed / sub-sampled / bi-planar formats, r1_bits, convert_channels, process_pixels_helper(_unroll) "
+            "AND every slice / index / length computation of the generic loops of read_write.rs with the row access of "
+            "ImageViewMut (mirrors TrapLoops, TrapLoopsBlock, TrapLoopsPlanar; site table in notes/C01.md section 7). "
+            "STILL only exercised: the external astc-decode crate (ASTC block bodies), std I/O and allocation, termination "
+            "of the real loops (watchdog; the model functions are all structurally recursive and the mirrors of the "
+            "`while let` loops return within lines + 1 next_line calls). Assumed about Rust, not a theorem: f32 arithmetic "
+            "and float -> integer casts never panic (IEEE, saturating casts).",
     "profiles": ["release", "checked"],
     "level": "proof",
     "rule": "cases = (a) every u32 word of 7 (thorough 20) template headers of every layout kind / pixel-info family "
@@ -63,14 +78,16 @@ CFG = {
             "bounds, empty) / skip / skip_mipmaps / read_cube_map / rewind lists over all 73 formats with exact, "
             "truncated, empty and oversized data; surfaces up to 2^64 bytes parsed, laid out and skipped only (image "
             "buffers capped at 16 MiB); (f) hard error / EOF / Interrupted at every byte of small files, chunked "
-            "reads, clamping seek. Compared: header or error variant, reader position, format, layout summary, result "
+            "reads, clamping seek; (g) one giant full decode (R1_UNORM 4294966273 x 1 into Alpha U8 from an all-zero "
+            "stream, memory_limit = usize::MAX, 4 GiB view: the regression case of F17; thorough: the neighbouring widths). "
+            "Compared: header or error variant, reader position, format, layout summary, result "
             "kind and reader position after every call, final cursor. Non-trivial = the header parsed; distinct = "
             "distinct case lines.",
     "assumptions": [
         "the implementation equals the model off the generated cases",
-        "astc-decode, the generic block / plane loop slicing of read_write.rs and std are panic-free (exercised by "
-        "the tie, not modelled); the trapping mirrors Trap*.lean transcribe the panic sites of the codec bodies "
-        "faithfully (by inspection; table in notes/C01.md)",
+        "astc-decode and std (I/O, allocation) are panic-free and the real loops terminate (exercised by the tie, not "
+        "modelled); f32 arithmetic never panics; the trapping mirrors Trap*.lean / TrapLoops*.lean transcribe the panic "
+        "sites of the codec bodies and of the generic loops faithfully (by inspection; tables in notes/C01.md)",
         "oracle in harness/src/c01.rs, independent of the model: no panic / hang (20 s watchdog) / abort in either "
         "profile; reader error or end of file during a call => Err(Io); Ok full decode => the stream held the whole "
         "surface; a single-surface call that used the reader fails only with Err(Io); padding between the rows of a "
@@ -80,16 +97,19 @@ CFG = {
     "trusted_base": ["models: Reader.lean (composition), Header.lean, HeaderTables.lean, FormatTables.lean, Layout.lean, "
                      "Iter.lean, Decoder.lean, Stream.lean, Addr.lean; codec bodies: Bc.lean, Bc7.lean, Bc6.lean, Conv.lean, "
                      "Uncompressed.lean with the trapping mirrors Trap.lean, TrapBc.lean, TrapBc7.lean, TrapBc6.lean, "
-                     "TrapUnc.lean; not modelled: astc-decode, block / plane loop slicing of read_write.rs, std"],
+                     "TrapUnc.lean; generic loops: TrapLoops.lean, TrapLoopsBlock.lean, TrapLoopsPlanar.lean (over Stream.lean's "
+                     "operations and View's invariant); not modelled: astc-decode, std"],
 }
 
 
 def nontrivial(c, r):
-    return r.startswith("hdr=9") or r.startswith("hdr=10")
+    return r.startswith("hdr=9") or r.startswith("hdr=10") or (c.startswith("G ") and r.startswith("ok "))
 
 
 def classify(c, r):
     t = c.split()
+    if t and t[0] == "G":
+        return "giant " + r.split(" ")[0]
     try:
         env = t[3][0] + ("c" if ",c" in t[3] else "")
         opt = t[1] + ("+fl" if t[2] != "-" else "")
